@@ -3,6 +3,13 @@
 //! and the parallel-transfer progress counters. The orchestration itself (quick
 //! check, planning, atomic delivery, delete, dry-run) lives in `incremental.rs`.
 
+#[cfg(paiml_copia_verif)]
+#[allow(unused_imports)]
+use copia_simworld::shim::{fs2, std, tokio};
+#[cfg(paiml_copia_verif)]
+#[allow(unused_imports)]
+use copia_simworld::{eprintln, println};
+
 use super::transfer::format_bytes;
 use std::path::{Path, PathBuf};
 use std::sync::atomic::{AtomicU64, Ordering};
